@@ -186,6 +186,33 @@ def check_loader(ctx, cfg, fb):
                     why = "ConstraintMatrices has %d fields, nine expected" % len(cm[3])
             ok = not why
         ctx.check(ok, "R17-4", "arkzkey matrices field map", "nine fields copied name-to-name", "arkzkey reader: %s" % why, loc(rd))
+        # the derived CanonicalDeserialize reads the fields in declaration order, so the declaration order IS the file layout of
+        # rln_final.arkzkey (written by ark-zkey): a reordering compiles, the embedded file no longer parses into the same matrices
+        ARK_LAYOUT = {
+            "rln::circuit::SerializableConstraintMatrices": ["num_instance_variables", "num_witness_variables", "num_constraints", "a_num_non_zero",
+                                                             "b_num_non_zero", "c_num_non_zero", "a", "b", "c"],
+            "rln::circuit::SerializableMatrix": ["data"],
+            "rln::circuit::SerializableProvingKey": ["0"],
+        }
+        for path, want in sorted(ARK_LAYOUT.items()):
+            adt = fb.adts.get(path)
+            names = [fl["name"] for fl in adt["variants"][0]["fields"]] if adt else None
+            ctx.check(names == want, "R17-4", "arkzkey layout %s" % path.split("::")[-1], "fields in the file's order %s" % want,
+                      "%s declares %s; the derived reader follows the declaration order, the file is laid out as %s" % (path, names, want))
+        # and the two objects are read from the one cursor in the file's order: proving key first, then the matrices
+        order = "?"
+        if len(oks) == 1:
+            tup = oks[0][4][0]
+            def reads(t):
+                return [x for x in subterms(t) if isinstance(x, tuple) and x and x[0] == "call" and re.search(r"CanonicalDeserialize::deserialize_", x[1])]
+            pk_r, cm_r = reads(tup[1][0]), reads(tup[1][1])
+            first = lambda r: not any(isinstance(y, tuple) and y and y[0] == "upd" for y in subterms(r[2][0]))
+            if pk_r and cm_r and all(first(r) for r in pk_r) and not any(first(r) for r in cm_r):
+                order = "pk,cm"
+            else:
+                order = "proving key from %s, matrices from %s" % ([sh(r, 60) for r in pk_r][:1], [sh(r, 60) for r in cm_r][:1])
+        ctx.check(order == "pk,cm", "R17-4", "arkzkey read order", "proving key from the first read of the cursor, constraint matrices from the second",
+                  "the arkzkey reader takes the %s; the file holds the proving key first and the matrices second" % order, loc(rd))
 
 
 def run(ctx):
